@@ -193,6 +193,42 @@ pub fn run(a: &Args, out: &mut impl Write) {
         let over: usize = outs.iter().map(|o| o.matches('v').count()).sum();
         writeln!(out, "cnthammer {} 16 {} | admitted={} over={} exit={}", n, 16 * per, admitted, over, ex).unwrap();
     }
+    {
+        // several threads, each with its own injector lifetimes, all built by the same `fake!` line
+        // (a shared set-up helper): the global lock serialises the lifetimes, and each one's calls and
+        // scope-exit verdict must be its own -- the verdict is read while the lifetime still owns the lock
+        let n = 2usize;
+        let threads = 8usize;
+        let rounds = if a.tier_thorough { 5000usize } else { 400 };
+        let bar = Arc::new(Barrier::new(threads));
+        let hs: Vec<_> = (0..threads)
+            .map(|t| {
+                let bar = bar.clone();
+                std::thread::spawn(move || {
+                    bar.wait();
+                    let mut bad = 0usize;
+                    let mut first = String::new();
+                    for round in 0..rounds {
+                        let k = if (round + t) % 2 == 0 { n } else { n - 1 };
+                        let (outs, ex) = lifetime(n, &[vec![true; k]]);
+                        let want_ex = if k == n { "ok".to_string() } else { format!("mismatch:{}:{}", n, k) };
+                        let want_outs: String = std::iter::repeat('o').take(k).collect();
+                        if ex != want_ex || outs[0] != want_outs {
+                            bad += 1;
+                            if first.is_empty() {
+                                first = format!("t{}r{}:k{}:{}:{}", t, round, k, outs[0], ex.replace(':', ","));
+                            }
+                        }
+                    }
+                    (bad, first)
+                })
+            })
+            .collect();
+        let res: Vec<(usize, String)> = hs.into_iter().map(|h| h.join().unwrap()).collect();
+        let bad: usize = res.iter().map(|x| x.0).sum();
+        let first = res.iter().map(|x| x.1.clone()).find(|x| !x.is_empty()).unwrap_or_else(|| "-".into());
+        writeln!(out, "cntshared {} {} {} | bad={} first={}", n, threads, rounds, bad, first).unwrap();
+    }
     // ---- C07: consecutive lifetimes evaluating the same call site; in a third of them the site
     // is installed twice or three times within the lifetime (a helper used for several functions)
     for _ in 0..a.n {
